@@ -2,7 +2,7 @@
    Only statements here; proofs live in Proofs/SplitProofs.v.  Model: Model/Split.v
    (splitMessage, Event.split, Join/List, MaxEventLength) and Model/State.v
    (handle_isupport); specification vocabulary: Spec/SplitSpec.v. *)
-Require Import Bytes Utf8 AMap WireOut Ctcp State Split SplitSpec SplitProofs.
+Require Import Bytes Utf8 AMap WireOut Ctcp State Split SplitSpec SplitUtf8 SplitProofs SplitWords SplitValid SplitContent.
 
 (* splitMessage returns for every text and every width (also <= 0): no slice is out of
    range and the word loop terminates (Panic also stands for "out of fuel"). *)
@@ -55,6 +55,40 @@ Theorem C11_shape : forall e max es, event_split e max = Ok es ->
      end).
 Proof. exact event_split_shape. Qed.
 Print Assumptions C11_shape.
+
+(* Plain text (none of the seven formatting control codes): the pieces are a layout of the
+   text's words (Spec/SplitSpec.v `layout`): each piece is a non-empty list of non-empty
+   chunks joined by single spaces; gluing every chunk marked "continued" to the chunk
+   that follows gives back exactly the words, in order; a continued chunk is the last of
+   its piece, so its continuation starts the next piece.  Hence nothing is dropped,
+   duplicated, reordered or fused and no separator appears inside a word.
+   msg_words text = the non-empty entries of splitMessage's own word list for the
+   sanitised (ToValidUTF8 "?"), edge-trimmed text. *)
+Theorem C11_content : forall text w ps,
+  Forall (fun b => is_code b = false) text ->
+  split_message text w = Ok ps -> layout (msg_words text) ps.
+Proof. exact split_message_content. Qed.
+Print Assumptions C11_content.
+
+(* no empty piece; and no piece at all for a text without words *)
+Theorem C11_content_nonempty : forall ws ps, layout ws ps -> Forall (fun p => p <> []) ps.
+Proof. exact layout_nonempty. Qed.
+Print Assumptions C11_content_nonempty.
+
+Theorem C11_content_nothing : forall ps, layout [] ps -> ps = [].
+Proof. exact layout_nil. Qed.
+Print Assumptions C11_content_nothing.
+
+(* For every text (also with control codes or invalid UTF-8): every piece is well-formed
+   UTF-8, i.e. chunk boundaries are character boundaries, and the final ToValidUTF8 pass
+   of splitMessage changes nothing. *)
+Theorem C11_pieces_valid : forall text w ps, split_message text w = Ok ps -> Forall wf ps.
+Proof. exact split_message_wf. Qed.
+Print Assumptions C11_pieces_valid.
+
+Theorem C11_final_pass_identity : forall text w, split_message text w = split_raw text w.
+Proof. exact split_message_raw. Qed.
+Print Assumptions C11_final_pass_identity.
 
 (* Join: every channel exactly once and in order ... *)
 Theorem C11_join : forall chans mel,
